@@ -43,17 +43,25 @@ Proof.
   unfold hooked in K. rewrite T in K. cbn in K. now subst k.
 Qed.
 
+(* map payloads: the column is written in any case — with the map's value when the key loop assigned
+   it, refreshed otherwise *)
 Lemma autoupdate_map selects omits p f : In f s -> has_col f = true ->
   local table selects = true -> local table omits = true ->
   tracked_update f = true -> updatable f = true -> listed table omits f = false ->
-  map_has p (f_name f) = false -> map_has p (f_db f) = false ->
-  In (f_db f, KNow) (assign_map s (select_and_omit s table selects omits false true) false p).
+  let sm := select_and_omit s table selects omits false true in
+  if was_assigned (map_keys_part s sm p) (f_db f)
+  then In (f_db f, KPay) (assign_map s sm false p)
+  else In (f_db f, KNow) (assign_map s sm false p).
 Proof.
-  intros Hin Hc Ls Lo T U O M1 M2. unfold assign_map. apply in_or_app. right. cbn [negb].
-  apply in_flat_map. exists f. split; [now apply in_col_fields|].
-  unfold tracked_update in T. destruct (f_auto f); try discriminate. rewrite M1, M2. cbn [negb andb].
-  rewrite (sao_get_field s table Hwf selects omits false true f Hin Hc Ls Lo). unfold denied. cbn.
-  rewrite U, O. cbn. destruct (listed table selects f); now left.
+  intros Hin Hc Ls Lo T U O sm. unfold assign_map. cbv zeta. fold sm.
+  destruct (was_assigned (map_keys_part s sm p) (f_db f)) eqn:A.
+  - apply in_or_app. left. unfold was_assigned in A. apply existsb_exists in A. destruct A as ([c k] & Ha & E).
+    cbn in E. apply String.eqb_eq in E. subst c.
+    destruct (map_keys_part_in s table Hwf selects omits p _ _ Ha) as [-> _]. exact Ha.
+  - apply in_or_app. right. cbn [negb]. apply in_flat_map. exists f. split; [now apply in_col_fields|].
+    unfold tracked_update in T. destruct (f_auto f); try discriminate. rewrite A. cbn [negb].
+    unfold sm. rewrite (sao_get_field s table Hwf selects omits false true f Hin Hc Ls Lo). unfold denied. cbn.
+    rewrite U, O. cbn. destruct (listed table selects f); now left.
 Qed.
 
 (* ... and never by the column-update methods *)
@@ -69,8 +77,8 @@ Proof.
   intros H. destruct (assign_map_in s table Hwf selects omits true p _ _ H) as [(f & _ & _ & _ & _ & K)|(_ & _ & K)]; [|exact K].
   destruct k; try reflexivity.
   - destruct (K eq_refl) as [X _]. discriminate X.
-  - exfalso. clear K. unfold assign_map in H. apply in_app_or in H. destruct H as [H|H]; [|contradiction].
-    apply in_flat_map in H. destruct H as (e & _ & H).
+  - exfalso. clear K. unfold assign_map in H. cbv zeta in H. apply in_app_or in H. destruct H as [H|H]; [|contradiction].
+    unfold map_keys_part in H. apply in_flat_map in H. destruct H as (e & _ & H).
     destruct (lookup_field s (fst e)) as [g|]; [destruct (has_col g)|];
       try destruct (allowed _ _); try contradiction; destruct H as [H|[]]; discriminate H.
 Qed.
@@ -163,10 +171,10 @@ Lemma harness_schemas_wf : Forall wf harness_schemas.
 Proof. repeat constructor; apply wfb_wf; vm_compute; reflexivity. Qed.
 
 (* the map payload {name, updated_at} under Select(name) on M1 *)
-Lemma autoupdate_map_refuted : exists s table selects omits p f,
+Lemma autoupdate_map_old_refuted : exists s table selects omits p f,
   wf s /\ In f s /\ has_col f = true /\ tracked_update f = true /\ updatable f = true
   /\ listed table omits f = false
-  /\ ~ exists k, In (f_db f, k) (assign_map s (select_and_omit s table selects omits false true) false p).
+  /\ ~ exists k, In (f_db f, k) (assign_map_old s (select_and_omit s table selects omits false true) false p).
 Proof.
   exists schema_t1, "t1"%string, [SName "name"%string], [],
          (0, [("name"%string, false); ("updated_at"%string, false)]),
